@@ -67,6 +67,7 @@ prop(
     level="proof",
     design_ref="DESIGN.md section 3, C20",
     groups=[(["./pipeline"], r"^\(\*Pipeline\)\.(checkInputBytes|In)$"), (["./pipeline/antispam"], r"^\(\*Antispammer\)\.(IsSpam|Maintenance)$"), (["./cfg/matchrule"], r"^\(\*Rule\)\.(Match|match)$")],
+    canaries=[("./pipeline", "replay/C20/zz_raw_last_byte_test.go", "TestVerifRawKeepsRecordBytes")],
     claim=(
         "Sequential admission control, for all records and settings: checkInputBytes has an exact postcondition (refuses iff empty, lone newline, or oversize with cutting disabled; within the limit the record is returned unchanged; "
         "a cut record is its first max_event_size bytes plus its newline, written inside the caller's record - frame checked); Pipeline.In returns 0 only on one of the listed reasons "
